@@ -241,6 +241,12 @@ func checkCase(c Case) (Outcome, error) {
 			names[e.Name] = true
 		}
 	}
+	enumNames := map[string]bool{}
+	for _, s := range []gm.Schema{base, edited} {
+		for _, e := range s.Enums {
+			enumNames[e.Name] = true
+		}
+	}
 	idxNames := map[string]bool{}
 	for _, s := range []gm.Schema{base, edited} {
 		for _, t := range s.Tables {
@@ -272,7 +278,8 @@ func checkCase(c Case) (Outcome, error) {
 		}
 		idxQualified := c.Dialect == "postgres" && regexp.MustCompile(`(?i)^\s*(DROP INDEX|ALTER INDEX|COMMENT ON INDEX)`).MatchString(s)
 		for i, t := range toks {
-			isRef := t.ident && (names[t.v] || idxQualified && idxNames[t.v])
+			// a type may also be written as a bare word (mood[]): it is a reference to the enum all the same
+			isRef := t.ident && (names[t.v] || idxQualified && idxNames[t.v]) || !t.ident && enumNames[t.v]
 			if !isRef {
 				continue
 			}
